@@ -11,24 +11,9 @@
 #ifndef V_IP6_MODE
 # define V_IP6_MODE 0
 #endif
-void harness(void) {
+static void check_one(const URI_CHAR *head, size_t n) {
 	URI_TYPE(Uri) u; URI_TYPE(ParserState) st;
 	unsigned char want[16]; unsigned long used; const URI_CHAR *r; URI_CHAR *text; int i, same;
-	ND_ARR(URI_CHAR, head, V_K);
-	ND(size_t, n);
-	__CPROVER_assume(n <= V_K);
-#if V_IP6_MODE == 1
-	/* slice of the input space: "::" followed by digits, dots and ']' only - the embedded-IPv4 tail, which needs 9..18
-	 * characters and is out of reach of the unrestricted obligation's bound */
-	__CPROVER_assume(n >= 2 && head[0] == _UT(':') && head[1] == _UT(':'));
-	for (i = 2; i < V_K; i++) __CPROVER_assume((head[i] >= _UT('0') && head[i] <= _UT('9')) || head[i] == _UT('.') || head[i] == _UT(']'));
-#endif
-#if V_IP6_MODE == 2
-	/* slice of the input space: group placement in LONG literals - only the digits 1, 2, a, F, the colon and ']'
-	 * (six symbols), up to V_K = 17 characters: reaches '::' followed by seven groups, seven groups followed by '::',
-	 * and the eight-group form with one-digit groups, all out of reach of the unrestricted obligation's bound */
-	for (i = 0; i < V_K; i++) __CPROVER_assume(head[i] == _UT('1') || head[i] == _UT('2') || head[i] == _UT('a') || head[i] == _UT('F') || head[i] == _UT(':') || head[i] == _UT(']'));
-#endif
 	text = malloc((n ? n : 1) * sizeof(URI_CHAR));
 	__CPROVER_assume(text != NULL);
 	for (i = 0; i < V_K; i++) if ((size_t)i < n) text[i] = head[i];
@@ -62,3 +47,41 @@ void harness(void) {
 		VPOST("C03,C13", g_live == 0 && u.hostData.ip6 == NULL, "ParseIPv6address2 failed: nothing remains allocated");
 	}
 }
+
+void harness(void) {
+	int i;
+	ND_ARR(URI_CHAR, head, V_K);
+	ND(size_t, n);
+	__CPROVER_assume(n <= V_K);
+#if V_IP6_MODE == 1
+	/* slice of the input space: "::" followed by digits, dots and ']' only - the embedded-IPv4 tail, which needs 9..18
+	 * characters and is out of reach of the unrestricted obligation's bound */
+	__CPROVER_assume(n >= 2 && head[0] == _UT(':') && head[1] == _UT(':'));
+	for (i = 2; i < V_K; i++) __CPROVER_assume((head[i] >= _UT('0') && head[i] <= _UT('9')) || head[i] == _UT('.') || head[i] == _UT(']'));
+#endif
+#if V_IP6_MODE == 2
+	/* slice of the input space: group placement in LONG literals - only the digits 1, 2, a, F, the colon and ']'
+	 * (six symbols), up to V_K = 17 characters: reaches '::' followed by seven groups, seven groups followed by '::',
+	 * and the eight-group form with one-digit groups, all out of reach of the unrestricted obligation's bound */
+	for (i = 0; i < V_K; i++) __CPROVER_assume(head[i] == _UT('1') || head[i] == _UT('2') || head[i] == _UT('a') || head[i] == _UT('F') || head[i] == _UT(':') || head[i] == _UT(']'));
+#endif
+	check_one(head, n);
+}
+
+#if V_IP6_MODE == 3
+/* enumerated group layouts of LONG literals (bounded stand-in of the weakest kind: constant texts run through the verifier
+ * against the reference recogniser, with all memory-safety checks): p groups, '::', q groups for every p + q <= 8, and the
+ * eight-group form, with one-digit and with four-digit groups (all digits distinct, so a misplaced or dropped group shows) */
+static URI_CHAR lay_digit(int d) { const char *hx = "123456789abcdefABCDEF0"; return (URI_CHAR)hx[d % 22]; }
+void h_layouts(void) {
+	int p, q, w, i, j;
+	for (w = 1; w <= 4; w += 3) for (p = 0; p <= 8; p++) for (q = 0; q <= 8 - p; q++) {
+		URI_CHAR buf[48]; size_t n = 0; int d = 0, zip = !(p == 8);
+		for (i = 0; i < p; i++) { if (i) buf[n++] = _UT(':'); for (j = 0; j < w; j++) buf[n++] = lay_digit(d++); }
+		if (zip) { buf[n++] = _UT(':'); buf[n++] = _UT(':'); }
+		for (i = 0; i < q; i++) { if (i) buf[n++] = _UT(':'); for (j = 0; j < w; j++) buf[n++] = lay_digit(d++); }
+		buf[n++] = _UT(']');
+		check_one(buf, n);
+	}
+}
+#endif
